@@ -447,7 +447,9 @@ impl GroupConfig {
                 Overreplicated(self.rf_over())
             },
             root_paths: if self.isolate {
-                self.input_paths().collect()
+                // scanned files are reported by their canonical paths, so the roots must be
+                // canonical too, however they were spelled (./x, x/../x, through a symlink)
+                self.input_paths().map(|p| p.canonicalize()).collect()
             } else {
                 vec![]
             },
